@@ -64,7 +64,10 @@ Count(s, P(_)) == Cardinality({i \in DOMAIN s : P(s[i])})
 Last(s) == s[Len(s)]
 Max(a, b) == IF a >= b THEN a ELSE b
 
-InitOf(e) == IF Len(wire[e]) >= 2 /\ wire[e][2].t = "INIT" THEN wire[e][2] ELSE [t |-> "NONE"]
+\* total: when the second message of the stream is not a SESS_INIT the clauses about the announced
+\* parameters fail (or do not apply) instead of the evaluation failing
+NoInit == [t |-> "NONE", ka |-> 0, nid |-> "", mru |-> 0, mrucls |-> "none", xmrucls |-> "none"]
+InitOf(e) == IF Len(wire[e]) >= 2 /\ wire[e][2].t = "INIT" THEN wire[e][2] ELSE NoInit
 HasInit(e) == InitOf(e).t = "INIT"
 \* established from the observer's point of view: e has sent its INIT and acted on the peer's
 Est(e) == HasInit(e) /\ hInit[e]
@@ -286,6 +289,14 @@ Clauses(ev) ==
                                   => ev.t >= Max(lastTrafT[ev.e], estT[ev.e]) + 1000 * scen.idle[ev.e]) }
                             ELSE {})
     [] ev.a = "Final"   -> FinalClauses(ev)
+    \* another connection of the same process whose transfer ids the adversary named on this connection
+    [] ev.a = "Bystander" ->
+        LET b == ev.i IN {
+          C({"C17"}, "OtherConnectionKeepsItsQueue", ToSet(b.txq) = ToSet(b.queued)),
+          C({"C17"}, "OtherConnectionsTransfersAllSucceedOnce",
+              /\ \A k \in ToSet(b.queued) : Cardinality({j \in DOMAIN b.fin : b.fin[j].id = k}) = 1
+              /\ \A j \in DOMAIN b.fin : b.fin[j].result = "success" /\ b.fin[j].id \in ToSet(b.queued)),
+          C({"C17"}, "OtherConnectionUndisturbed", b.esc = 0 /\ b.complaints = 0 /\ ~b.closed) }
     [] OTHER -> {}
 
 StepOK(ev) == AllOK(Clauses(ev))
